@@ -120,6 +120,50 @@ macro_rules! c01_bin {
     };
 }
 
+/// Aliased operands: the same object on both sides of a binary operator (x & x = x, x | x = x, x ^ x = 0),
+/// every form that can take the same object twice.
+macro_rules! c01_alias {
+    ($name:ident, $fam:ident, $u:literal) => {
+        #[kani::proof]
+        #[kani::unwind($u)]
+        pub fn $name() {
+            use crate::verif_common::$fam as F;
+            let ba = any_blocks::<{ F::T }>(F::N);
+            let a = F::mk(&ba);
+            let m = any_m(F::N);
+            let av = bit(&ba, m);
+            let r = a.and(&a);
+            assert!(wf(F::N, r.blocks()) && bit(r.blocks(), m) == av);
+            let r = a.or(&a);
+            assert!(wf(F::N, r.blocks()) && bit(r.blocks(), m) == av);
+            let r = a.xor(&a);
+            assert!(wf(F::N, r.blocks()) && !bit(r.blocks(), m));
+            let r = &a & &a;
+            assert!(bit(r.blocks(), m) == av);
+            let r = &a | &a;
+            assert!(bit(r.blocks(), m) == av);
+            let r = &a ^ &a;
+            assert!(!bit(r.blocks(), m) && r.value(m) == false);
+            let r = a.clone() ^ &a;
+            assert!(!bit(r.blocks(), m));
+            let r = &a ^ a.clone();
+            assert!(!bit(r.blocks(), m));
+            let mut h = a.clone();
+            h ^= &a;
+            assert!(!bit(h.blocks(), m));
+            let mut h = a.clone();
+            h &= &a;
+            assert!(bit(h.blocks(), m) == av);
+            let mut h = a.clone();
+            h.xor_inplace(&a);
+            assert!(!bit(h.blocks(), m));
+            assert!(eq_blocks(a.blocks(), &ba));
+            kani::cover!(av, "bit set");
+            kani::cover!(true, "reached");
+        }
+    };
+}
+
 macro_rules! c01_and {
     ($name:ident, $fam:ident, $u:literal) => {
         c01_bin!($name, $fam, $u, and, and_inplace, &, &=, &);
